@@ -8,8 +8,10 @@ L2  TLC emits every depth-2 history of the small scope and simulated longer beha
     step, the object (projected to values) and the written file (parsed by an own splitter) with what TLC computed.
 L3  random documents from the grammar (1..80 images, up to 25 columns, negative / float / text values, titles) with
     random operation sequences, and random loader / wedge-list inputs (1..80 rows, 1..5 tomograms, file and array
-    inputs): the driver records the calls, TiltMetaTrace.tla recomputes every step / table with the operators of
-    TiltMeta.tla and names the failing clause.
+    inputs), and call SEQUENCES on one set of files and caller-owned objects in one process (loaders with both flag
+    values in varying order, then the builders; every earlier result is looked at again after the later calls):
+    the driver records the calls, TiltMetaTrace.tla recomputes every step / table with the operators of TiltMeta.tla
+    and names the failing clause.
 """
 import contextlib
 import io
@@ -160,6 +162,8 @@ def replay(ctx, case):
         run_random_mdocs(ctx, [case])
     elif case["kind"] in ("loader", "wedge"):
         run_tables(ctx, [case])
+    elif case["kind"] == "session":
+        run_sessions(ctx, [case])
     else:
         raise core.MachineryError("unknown case kind %r" % case.get("kind"))
 
@@ -647,6 +651,156 @@ def exec_table_case(case, wd):
         return out
 
 
+# ---- L3: call sequences on one set of files / argument objects in one process -----------------------------------------
+SESSION_CALLS = ["tlt_mdoc", "tlt_mdoc", "dose_mdoc", "dose_mdoc", "tlt_file", "tlt_array", "dose_file", "dose_array",
+                 "defocus_file", "defocus_frame", "wedge_mdoc", "wedge_files", "wedge_objects"]
+
+
+def gen_session_case(rng, idx):
+    n = rng.choice([2, 3, rng.randint(2, 41), rng.randint(2, 80)])
+    tl = gen_tilts(rng, n)
+    acq = list(tl)
+    rng.shuffle(acq)                                          # acquisition order of the mdoc
+    imgs = [{"tilt": t, "prior": rng.randint(0, 20000), "expo": rng.randint(1, 500)} for t in acq]
+    fmt = rng.choice(["gctf", "gctf_nophase", "ctffind4"])
+    calls = []
+    for _ in range(rng.randint(3, 9)):
+        f = rng.choice(SESSION_CALLS)
+        c = {"f": f}
+        if f in ("tlt_mdoc", "dose_mdoc", "tlt_file"):
+            c["sort"] = rng.random() < 0.5
+        if f == "defocus_file":
+            c["via"] = rng.choice(["read", "defocus_load"])
+        calls.append(c)
+    return {"kind": "session", "id": idx, "imgs": imgs, "ctf": gen_ctf(rng, n, fmt != "gctf_nophase"), "fmt": fmt,
+            "dosevals": [rng.randint(0, 30000) for _ in range(n)], "tid": rng.randint(1, 998),
+            "dim": [rng.randint(100, 5000), rng.randint(100, 5000), rng.randint(50, 3000)], "zshift": rng.randint(-2000, 2000),
+            "consts": {"px": rng.choice([1000, 1327, 2400]), "voltage": 3000, "amp": 70, "cs": 270},
+            "calls": calls, "variant": rng.randrange(1000)}
+
+
+def exec_session(case, wd):
+    """One tilt series, one set of files and caller-owned objects, a sequence of loader / builder calls in this process.
+    Returns [(label, trace-record)]: one per call, and one per earlier result looked at again after all calls."""
+    import pandas as pd
+    from cryocat import ioutils, wedgeutils
+    from .. import motlutil
+    os.makedirs(wd, exist_ok=True)
+    imgs, ctf, C = case["imgs"], case["ctf"], case["consts"]
+    tilts_sorted = sorted(i["tilt"] for i in imgs)
+    mdoc_path = os.path.join(wd, "ts.mdoc")
+    with open(mdoc_path, "w") as fh:
+        fh.write(mdoc_text(imgs))
+    tlt_path = os.path.join(wd, "ts.tlt")
+    tm.write_values(tlt_path, tilts_sorted, 100, 2, pad=" ")
+    dose_path = os.path.join(wd, "ts_dose.txt")
+    tm.write_values(dose_path, case["dosevals"], 100, 2)
+    if case["fmt"] == "ctffind4":
+        ctf_path, ctf_type = os.path.join(wd, "ts_ctf.txt"), "ctffind4"
+        tm.write_ctffind4(ctf_path, ctf)
+    else:
+        ctf_path, ctf_type = os.path.join(wd, "ts_ctf.star"), "gctf"
+        tm.write_gctf(ctf_path, ctf, case["fmt"] == "gctf")
+    # objects owned by the caller, handed to several calls
+    tilt_arr = np.array(tilts_sorted, dtype=float) / 100.0
+    dose_arr = np.array(case["dosevals"], dtype=float) / 100.0
+    ctf_frame = motlutil.vary_index(pd.DataFrame(
+        [[r["u"] / 1e5, r["v"] / 1e5, r["ang"] / 100.0, r["ps"] / 1000.0, (r["u"] / 1e5 + r["v"] / 1e5) / 2.0] for r in ctf],
+        columns=["defocus1", "defocus2", "astigmatism", "phase_shift", "defocus_mean"]), case["variant"])
+    dim_arr = np.array(case["dim"], dtype=float)
+    px, volt, amp, cs = C["px"] / 1000.0, C["voltage"] / 10.0, C["amp"] / 1000.0, C["cs"] / 100.0
+    tomo = {"id": case["tid"], "tilts": tilts_sorted, "ctf": ctf, "dose": case["dosevals"], "dim": case["dim"],
+            "zshift": case["zshift"]}
+
+    def defocus_rows(df):
+        return [{"d1": tm.sround(r["defocus1"], 1e5), "d2": tm.sround(r["defocus2"], 1e5),
+                 "mean2": tm.sround(r["defocus_mean"], 2e5), "ast": tm.sround(r["astigmatism"], 100),
+                 "ps": tm.sround(r["phase_shift"], 1000)} for _, r in df.iterrows()]
+
+    obs = []            # (label, base record, live result object, projector)
+    with contextlib.redirect_stdout(io.StringIO()):
+        for k, c in enumerate(case["calls"]):
+            f = c["f"]
+            label = "%d:%s" % (k, f)
+            if f == "tlt_mdoc":
+                res = ioutils.tlt_load(mdoc_path, sort_angles=c["sort"])
+                base = {"kind": "loader", "what": "tlt", "vals": [i["tilt"] for i in imgs], "sort": c["sort"]}
+                proj = lambda r: ints(r, 100)
+            elif f == "tlt_file":
+                res = ioutils.tlt_load(tlt_path, sort_angles=c["sort"])
+                base = {"kind": "loader", "what": "tlt", "vals": tilts_sorted, "sort": c["sort"]}
+                proj = lambda r: ints(r, 100)
+            elif f == "tlt_array":
+                res = ioutils.tlt_load(tilt_arr)
+                base = {"kind": "loader", "what": "tlt", "vals": tilts_sorted, "sort": False}
+                proj = lambda r: ints(r, 100)
+            elif f == "dose_mdoc":
+                res = ioutils.total_dose_load(mdoc_path, sort_mdoc=c["sort"])
+                base = {"kind": "loader", "what": "mdocdose", "imgs": imgs, "sort": c["sort"]}
+                proj = lambda r: ints(r, 100)
+            elif f == "dose_file":
+                res = ioutils.total_dose_load(dose_path)
+                base = {"kind": "loader", "what": "dose", "vals": case["dosevals"]}
+                proj = lambda r: ints(r, 100)
+            elif f == "dose_array":
+                res = ioutils.total_dose_load(dose_arr)
+                base = {"kind": "loader", "what": "dose", "vals": case["dosevals"]}
+                proj = lambda r: ints(r, 100)
+            elif f == "defocus_file":
+                if c["via"] == "read":
+                    res = ioutils.ctffind4_read(ctf_path) if ctf_type == "ctffind4" else ioutils.gctf_read(ctf_path)
+                else:
+                    res = ioutils.defocus_load(ctf_path, ctf_type)
+                base = {"kind": "loader", "what": "defocus", "rows": ctf}
+                proj = defocus_rows
+            elif f == "defocus_frame":
+                res = ioutils.defocus_load(ctf_frame)
+                base = {"kind": "loader", "what": "defocus", "rows": ctf}
+                proj = defocus_rows
+            elif f == "wedge_mdoc":
+                res = wedgeutils.create_wedge_list_sg(case["tid"], list(case["dim"]), px, mdoc_path, z_shift=case["zshift"] / 10.0,
+                                                      ctf_file=ctf_path, ctf_file_type=ctf_type, dose_file=mdoc_path,
+                                                      voltage=volt, amp_contrast=amp, cs=cs)
+                base = {"kind": "wedge", "what": "sg_mdoc", "imgs": imgs, "tomos": [dict(tomo, dose=[])], "consts": C}
+                proj = wedge_rows_of_frame
+            elif f == "wedge_files":
+                res = wedgeutils.create_wedge_list_sg(case["tid"], list(case["dim"]), px, tlt_path, z_shift=case["zshift"] / 10.0,
+                                                      ctf_file=ctf_path, ctf_file_type=ctf_type, dose_file=dose_path,
+                                                      voltage=volt, amp_contrast=amp, cs=cs)
+                base = {"kind": "wedge", "what": "sg", "tomos": [tomo], "consts": C}
+                proj = wedge_rows_of_frame
+            elif f == "wedge_objects":
+                res = wedgeutils.create_wedge_list_sg(case["tid"], dim_arr, px, tilt_arr, z_shift=case["zshift"] / 10.0,
+                                                      ctf_file=ctf_frame, dose_file=dose_arr, voltage=volt, amp_contrast=amp, cs=cs)
+                base = {"kind": "wedge", "what": "sg", "tomos": [tomo], "consts": C}
+                proj = wedge_rows_of_frame
+            else:
+                raise core.MachineryError("unknown session call %r" % f)
+            obs.append((label, base, res, proj, proj(res)))
+    out = []
+    for label, base, res, proj, first in obs:
+        out.append((label, dict(base, got=first)))
+    for label, base, res, proj, first in obs:                 # the earlier results, looked at again after all calls
+        out.append((label + " (re-inspected)", dict(base, got=proj(res))))
+    return out
+
+
+def run_sessions(ctx, cases):
+    traces, kept = [], []
+    for case in cases:
+        wd = os.path.join(ctx.sub("sessions"), "s%d_%d" % (os.getpid(), ctx.traces))
+        res, err = core.call_guarded(exec_session, case, wd)
+        ctx.ran(case)
+        if err is not None:
+            ctx.fail("call_raises", err, case, {"op": "loader/wedge call sequence", "layer": "L3"})
+            continue
+        for label, tr in res:
+            tr["id"] = case["id"]
+            traces.append(tr)
+            kept.append(dict(case, _label=label))
+    validate(ctx, traces, kept, lambda case, v: {"op": "sequence:" + case["_label"].split(":", 1)[1], "layer": "L3"})
+
+
 def run_tables(ctx, cases, corrupt=None):
     traces, kept = [], []
     for case in cases:
@@ -738,3 +892,8 @@ def run(ctx):
         corrupt = os.environ.get("VERIF_C17_CORRUPT") or None
         for b in range(0, total, 500):
             run_tables(ctx, cases[b:b + 500], corrupt=corrupt if b == 0 else None)
+    if want("sessions"):
+        total = ctx.pick(40, 1200)
+        cases = [gen_session_case(ctx.rng, 200000 + i) for i in range(total)]
+        for b in range(0, total, 300):
+            run_sessions(ctx, cases[b:b + 300])
